@@ -33,7 +33,7 @@ import (
 	"google.golang.org/grpc"
 )
 
-const c15BaseRev = 100
+const c15BaseRev = 100 // default revision of an empty model etcd (a world may start at 0: "no revision yet")
 
 type c15Ev struct {
 	rev int64
@@ -56,14 +56,17 @@ type c15Watch struct {
 
 type c15Etcd struct {
 	mu       sync.Mutex
-	cond     *sync.Cond // signalled on log growth / abandon / stop (concurrent workload)
+	base     int64            // revision of the empty store
+	conn     *grpc.ClientConn // what ActiveConnection returns (real-connection family only)
+	cond     *sync.Cond       // signalled on log growth / abandon / stop (concurrent workload)
 	store    map[string]string
 	lease    map[string]clientv3.LeaseID
 	log      []c15Ev
 	watches  []*c15Watch
 	gets     int
 	getFails int
-	failGets int // number of upcoming Get calls that fail
+	failGets int    // number of upcoming Get calls that fail
+	failPub  string // "grant" | "put" | "keepalive": the next such publisher call fails once
 	nextLs   clientv3.LeaseID
 	pendLs   clientv3.LeaseID
 	revokes  int
@@ -75,13 +78,20 @@ func newC15Etcd() *c15Etcd {
 		store:   map[string]string{},
 		lease:   map[string]clientv3.LeaseID{},
 		nextLs:  7000,
+		base:    c15BaseRev,
 		kaChans: map[clientv3.LeaseID]chan *clientv3.LeaseKeepAliveResponse{},
 	}
 	e.cond = sync.NewCond(&e.mu)
 	return e
 }
 
-func (e *c15Etcd) revLocked() int64 { return c15BaseRev + int64(len(e.log)) }
+func (e *c15Etcd) revLocked() int64 { return e.base + int64(len(e.log)) }
+
+func (e *c15Etcd) rev() int64 {
+	e.mu.Lock()
+	defer e.mu.Unlock()
+	return e.revLocked()
+}
 
 // apply a put/delete to the store (a publisher registering / expiring).
 // Returns false if the operation is a no-op (delete of an absent key).
@@ -93,7 +103,7 @@ func (e *c15Etcd) put(key, val string) {
 
 func (e *c15Etcd) putLocked(key, val string) {
 	e.store[key] = val
-	e.log = append(e.log, c15Ev{rev: c15BaseRev + int64(len(e.log)) + 1, key: key, val: val})
+	e.log = append(e.log, c15Ev{rev: e.base + int64(len(e.log)) + 1, key: key, val: val})
 }
 
 func (e *c15Etcd) del(key string) bool {
@@ -108,7 +118,7 @@ func (e *c15Etcd) delLocked(key string) bool {
 	}
 	delete(e.store, key)
 	delete(e.lease, key)
-	e.log = append(e.log, c15Ev{rev: c15BaseRev + int64(len(e.log)) + 1, del: true, key: key})
+	e.log = append(e.log, c15Ev{rev: e.base + int64(len(e.log)) + 1, del: true, key: key})
 	return true
 }
 
@@ -163,7 +173,7 @@ func (e *c15Etcd) counters() (gets, getFails, watches, revokes int) {
 
 // ---- internal.EtcdClient
 
-func (e *c15Etcd) ActiveConnection() *grpc.ClientConn { return nil }
+func (e *c15Etcd) ActiveConnection() *grpc.ClientConn { return e.conn }
 func (e *c15Etcd) Close() error                       { return nil }
 func (e *c15Etcd) Ctx() context.Context               { return context.Background() }
 
@@ -217,8 +227,8 @@ func (e *c15Etcd) Watch(ctx context.Context, key string, opts ...clientv3.OpOpti
 	if w.reqRev == 0 {
 		w.cursor = len(e.log) // "from now"
 	} else {
-		// log[i] has revision c15BaseRev+i+1
-		w.cursor = int(w.reqRev - c15BaseRev - 1)
+		// log[i] has revision base+i+1
+		w.cursor = int(w.reqRev - e.base - 1)
 		if w.cursor < 0 {
 			w.cursor = 0
 		}
@@ -227,9 +237,20 @@ func (e *c15Etcd) Watch(ctx context.Context, key string, opts ...clientv3.OpOpti
 	return w.ch
 }
 
+func (e *c15Etcd) failOnce(what string) bool {
+	if e.failPub == what {
+		e.failPub = ""
+		return true
+	}
+	return false
+}
+
 func (e *c15Etcd) Grant(ctx context.Context, ttl int64) (*clientv3.LeaseGrantResponse, error) {
 	e.mu.Lock()
 	defer e.mu.Unlock()
+	if e.failOnce("grant") {
+		return nil, errors.New("c15: injected Grant failure")
+	}
 	e.nextLs++
 	e.pendLs = e.nextLs
 	return &clientv3.LeaseGrantResponse{ID: e.nextLs, TTL: ttl}, nil
@@ -238,6 +259,9 @@ func (e *c15Etcd) Grant(ctx context.Context, ttl int64) (*clientv3.LeaseGrantRes
 func (e *c15Etcd) KeepAlive(ctx context.Context, id clientv3.LeaseID) (<-chan *clientv3.LeaseKeepAliveResponse, error) {
 	e.mu.Lock()
 	defer e.mu.Unlock()
+	if e.failOnce("keepalive") {
+		return nil, errors.New("c15: injected KeepAlive failure")
+	}
 	ch := make(chan *clientv3.LeaseKeepAliveResponse)
 	e.kaChans[id] = ch
 	return ch, nil
@@ -247,6 +271,9 @@ func (e *c15Etcd) KeepAlive(ctx context.Context, id clientv3.LeaseID) (<-chan *c
 func (e *c15Etcd) Put(ctx context.Context, key, val string, opts ...clientv3.OpOption) (*clientv3.PutResponse, error) {
 	e.mu.Lock()
 	defer e.mu.Unlock()
+	if e.failOnce("put") {
+		return nil, errors.New("c15: injected Put failure")
+	}
 	e.putLocked(key, val)
 	e.lease[key] = e.pendLs
 	return &clientv3.PutResponse{Header: &etcdserverpb.ResponseHeader{Revision: e.revLocked()}}, nil
@@ -316,6 +343,7 @@ func (w *c15Watch) wants(ev c15Ev) bool { return c15Match(ev.key, w.prefix, !w.e
 // ---- goroutine states
 
 const c15Pkg = "github.com/gotid/god/lib/discov/internal."
+const c15StateWatchFn = "internal.(*stateWatcher).watch("
 const c15RunFn = "github.com/gotid/god/lib/threading.(*RoutineGroup).Run"
 
 type c15G struct {
@@ -380,6 +408,9 @@ func c15WatchersIdle(min int) bool {
 		if !strings.Contains(g.text, c15Pkg) && !strings.Contains(g.text, c15RunFn) {
 			continue
 		}
+		if strings.Contains(g.text, c15StateWatchFn) {
+			continue // the connection-state watcher (real-connection family) is not a watch loop
+		}
 		if (g.state != "select" && g.state != "chan receive") || !strings.HasPrefix(g.top, c15Pkg) {
 			return false
 		}
@@ -398,4 +429,25 @@ func c15TrySend(w *c15Watch, resp clientv3.WatchResponse) bool {
 	default:
 		return false
 	}
+}
+
+// lastLease returns the lease granted last (the publisher that just registered).
+func (e *c15Etcd) lastLease() clientv3.LeaseID {
+	e.mu.Lock()
+	defer e.mu.Unlock()
+	return e.pendLs
+}
+
+// loseLease closes the keep-alive channel of a lease: what the etcd client does
+// when the lease expired or the keep-alive stream broke for good.
+func (e *c15Etcd) loseLease(id clientv3.LeaseID) bool {
+	e.mu.Lock()
+	defer e.mu.Unlock()
+	ch, ok := e.kaChans[id]
+	if !ok {
+		return false
+	}
+	delete(e.kaChans, id)
+	close(ch)
+	return true
 }
